@@ -8,7 +8,7 @@ DELTA = 0.05  # documented smoothing half-band (m)
 # the smoothing cubics are evaluated in absolute pressure with coefficients ~1/DELTA^3: rounding noise reaches ~1e-8 of the
 # demand fraction (measured 3e-9); the solver tolerance is 1e-6, so 1e-7 is "equal" for this property
 NOISE = 1e-7
-RULE = ("(a) model seam: create_hydraulic_model on R-pipe-J; (Pmin,Preq) in {(0,20),(3.516,21.097),(5,5.5),(0,0.2)} x exponent "
+RULE = ("(a) model seam: create_hydraulic_model on R-pipe-J; (Pmin,Preq) in {(0,20),(3.516,21.097),(5,5.5),(0,0.2),(-5,15)} x exponent "
         "{0.5,0.4,0.75,1.0} x requested demand {0,1e-4,0.01,1} x {global, per-junction override of all / each parameter}; the "
         "compiled residual of m.pdd[J] at demand 0 is swept over 400 uniform pressures in [Pmin-5, Preq+5] plus 12 points "
         "around each of the four branch edges; (b) system seam: PDD runs with reservoir heads placing the junction in every "
@@ -17,7 +17,7 @@ RULE = ("(a) model seam: create_hydraulic_model on R-pipe-J; (Pmin,Preq) in {(0,
         "one per-junction parameter {none, required_pressure, minimum_pressure, pressure_exponent} at 2 h. oracle: zero/full/power-law values, "
         "monotone, continuous, overrides local. non-trivial: grid covers all five branches and D>0")
 
-PAIRS = [(0.0, 20.0), (3.516, 21.097), (5.0, 5.5), (0.0, 0.2)]
+PAIRS = [(0.0, 20.0), (3.516, 21.097), (5.0, 5.5), (0.0, 0.2), (-5.0, 15.0)]     # incl. a negative minimum pressure (legal)
 EXPS = [0.5, 0.4, 0.75, 1.0]
 DEMS = [0.0, 1e-4, 0.01, 1.0]
 MODES = ["global", "junction_all", "junction_pmin", "junction_preq", "junction_exp"]
@@ -58,7 +58,7 @@ def cases(tier):
     # (c) dynamic seam: a 6-step run in which a reservoir head pattern walks the junction through all regimes, the requested
     # demand follows a pattern, and (optionally) a time control changes one per-junction parameter at t = 2 h
     for (pmin, preq), e, mode in itertools.product(PAIRS, EXPS, ("global", "junction_all")):
-        if tier == "quick" and (e not in (0.5, 1.0) or (pmin, preq) == (0.0, 0.2)):
+        if tier == "quick" and (e not in (0.5, 1.0) or (pmin, preq) == (0.0, 0.2)) and pmin >= 0:
             continue
         for chg in (None, "required_pressure", "minimum_pressure", "pressure_exponent"):
             out.append({"seam": "dynamic", "pmin": pmin, "preq": preq, "exp": e, "mode": mode, "change": chg})
